@@ -3,7 +3,7 @@
 From Coq Require Import ZArith List Bool PrimFloat.
 Import ListNotations.
 Require Import PyBase Solver SolverF SolveAll SolveAllF SolveAllFacts SolveAllExamples.
-Require Import SolveAllSpan SolveAllSpanFacts SolveAllSpanExamples.
+Require Import SolveAllSpan SolveAllSpanFacts SolveAllSpanExamples SolverFacts3 SolveAllFacts2.
 Require Fsic.Gen.Generated.
 Open Scope Z_scope.
 
@@ -108,6 +108,20 @@ Section C05.
       (forall q, q <> (a + j)%nat -> same_at sj s' q) /\
       (forall q, (q < a \/ a + j < q)%nat -> same_at s s' q).
   Proof. exact (solve_failure_containment num sub absf ltb isfin zero ev before after L locate d o span start end_ s a b s' e). Qed.
+
+  (* ... and the failing period carries the status its policy prescribes: when the fold raises, one solve_t call for a period of
+     the range (from the state the completed prefix left) raised, and that period is stamped 'F' with NonConvergenceError
+     (failures='raise'), 'E' with SolutionError (errors='raise': non-finite value or exception inside a pass), or nothing is
+     recorded at all (hook exception, pre-existing non-finite values, pass exception under another policy, IndexError, ValueError) *)
+  Theorem C05_failing_period_status d o ps s acc s' e :
+    run_periods d o ps s acc = (s', Raise e) ->
+    exists t lab sj, In (t, lab) ps /\ solve_t_M d o t sj = (s', Raise e) /\
+      ((status s' = status sj /\ iters s' = iters sj) \/
+       exists p x k, py_pos (length (status sj)) t = Some p /\
+         status s' = upd p x (status sj) /\ iters s' = upd p (Z.of_nat k) (iters sj) /\
+         ((x = Failed /\ e = NonConvergenceError /\ fail_raise o = true) \/
+          (x = ErrorSt /\ errors o = ERaise /\ exists c, e = SolutionError c))).
+  Proof. exact (run_periods_raise_status num sub absf ltb isfin zero ev before after L d o ps s acc s' e). Qed.
 
   (* whatever the outcome, periods outside [start, end] are untouched *)
   Theorem C05_untouched_outside_range d o span start end_ s a b s' r :
@@ -266,6 +280,7 @@ Print Assumptions C05_solve_bad_end.
 Print Assumptions C05_solve_empty_span.
 Print Assumptions C05_solve_t_frame.
 Print Assumptions C05_failure_containment.
+Print Assumptions C05_failing_period_status.
 Print Assumptions C05_untouched_outside_range.
 Print Assumptions C05_solve_period_eq_solve_t.
 Print Assumptions C05_solve_period_bad_label.
